@@ -3,6 +3,7 @@ package sessiontracker
 import (
 	"fmt"
 	"strconv"
+	"sync"
 	"time"
 
 	"github.com/elastic/go-libaudit/v2/aucoalesce"
@@ -34,6 +35,18 @@ func NewSessionTracker(eventWriter *auditevent.EventWriter, l *zap.SugaredLogger
 // allowing us to correlate auditd events back to the credential
 // a user used to authenticate.
 type sessionTracker struct {
+	// mtx serializes RemoteLogin, AuditdEvent and the two cleanup
+	// methods. They are called from different Go routines (remote
+	// logins and cleanup from the audit processor's loop, audit
+	// events from the reassembler's Go routines) and each of them
+	// reads one of the maps below and then updates the other. The
+	// maps' own locks only protect the individual steps: without
+	// this lock a login that has just scanned the sessions and an
+	// AUDIT_LOGIN event that has just looked for a waiting login
+	// can miss each other, after which both wait forever and the
+	// session's events are never emitted.
+	mtx sync.Mutex
+
 	// sessIDsToUsers contains active auditd sessions which may
 	// or may not have a common.RemoteUserLogin associated with
 	// them. It also acts as an auditd event cache.
@@ -62,6 +75,9 @@ type sessionTracker struct {
 // RemoteLogin validates and checks if there is an auditd session already present for the
 // RemoteLogin passed as parameter. It modifies the user object by setting the remote login information.
 func (o *sessionTracker) RemoteLogin(rul common.RemoteUserLogin) error {
+	o.mtx.Lock()
+	defer o.mtx.Unlock()
+
 	var debugLogger *zap.SugaredLogger
 	if o.l.Level().Enabled(zap.DebugLevel) {
 		debugLogger = o.l.With("RemoteUserLogin", rul)
@@ -150,6 +166,9 @@ func (o *sessionTracker) RemoteLogin(rul common.RemoteUserLogin) error {
 func (o *sessionTracker) AuditdEvent(event *aucoalesce.Event) error {
 	// TODO: Handle the "SystemAction" type (where session == "unset").
 	//  ps: "unset" is a string.
+
+	o.mtx.Lock()
+	defer o.mtx.Unlock()
 
 	// Short-circuit if event is not associated with an audit session.
 	// Processes like "cron" may run as a user, triggering an event
@@ -300,6 +319,9 @@ func (o *sessionTracker) auditEventWithoutSession(event *aucoalesce.Event, debug
 // DeleteUsersWithoutLoginsBefore it takes a time parameter. It iterates over active audit sessions.
 // If the session is added before the timestamp and the user does not have a remote login, then it deletes that session.
 func (o *sessionTracker) DeleteUsersWithoutLoginsBefore(t time.Time) {
+	o.mtx.Lock()
+	defer o.mtx.Unlock()
+
 	var debugLogger *zap.SugaredLogger
 	if o.l.Level().Enabled(zap.DebugLevel) {
 		debugLogger = o.l.With(
@@ -329,6 +351,9 @@ func (o *sessionTracker) DeleteUsersWithoutLoginsBefore(t time.Time) {
 // It iterates over remote user logins and checks if a login was before the timestamp,
 // then it deletes that remote user login.
 func (o *sessionTracker) DeleteRemoteUserLoginsBefore(t time.Time) {
+	o.mtx.Lock()
+	defer o.mtx.Unlock()
+
 	var debugLogger *zap.SugaredLogger
 	if o.l.Level().Enabled(zap.DebugLevel) {
 		debugLogger = o.l.With(
